@@ -95,6 +95,8 @@ def user_dict(ps):
         key = d.pop("indicator")
         head = {} if nokey else {"indicator": ps["key"] if ps.get("key") is not None else key}
     d = {**head, **d}
+    if ps.get("cs") is not None and "candlestick_type" in d:   # `cs=`: another candlestick type name than "HA" (in its place)
+        d["candlestick_type"] = ps["cs"]
     if ps.get("xkw") is not None:
         assert ps["xkw"] not in d
         d[ps["xkw"]] = 1
@@ -246,6 +248,9 @@ def gen_settings_line(rng):
         extra.append("hfill=1")
     if rng.random() < 0.25:
         extra.append("hha=1")
+    if spec["ha"] and rng.random() < 0.3:
+        # a candlestick type by a name CANDLESTICK_MAP may not have (InvalidCandlestickType)
+        extra.append("cs=" + rng.choice(["XX", "ha", "Heikin-Ashi", "HA", "NA"]))
     if rng.random() < 0.25:
         extra.append(f"hlife={rng.choice([0, 60, 7200])}")
     return " ".join(["settings", toks] + extra), meta
